@@ -19,6 +19,12 @@ T = "vaporetto::trainer::Trainer"
 
 def run(chk):
     w = C.world_for(chk)
+    from . import ctors as _acc
+    _acc.accessors(chk, w, only=["vaporetto::sentence::"])
+    # the documented feature set is parameterised by the window / n-gram sizes exactly as given to Trainer::new (shared with C09)
+    from . import c09 as _c09
+    chk.rule("R09.1", "Trainer::new stores its size parameters unchanged (shared with C09)")
+    _c09.r091_new(chk, w)
     chk.rule("R10.1", "label filter table of add_example: N -> (xs, ys:=0), W -> (xs, ys:=1), Unknown -> no example")
     chk.rule("R10.2", "xs/ys written only by add_example, consumed only by train")
     chk.rule("R10.3", "feature loop forms, char/type twins, dictionary feature positions and guards")
